@@ -10,11 +10,10 @@ Local Open Scope string_scope.
 (* ---- __str__ = ARC-4 type string ---- *)
 Theorem py_str_type_str : forall t, py_str t = type_str t.
 Proof.
+  (* the two fixpoints have the same body up to the folding of string constants, which Coq's
+     conversion sees through; the induction is kept so that a divergence shows up case by case *)
   induction t as [| | n | | | e n IH | e IH | nm ts IH | n | | k | k] using ty_ind'; simpl;
-    try reflexivity.
-  - rewrite IH; reflexivity.
-  - rewrite IH; reflexivity.
-  - do 3 f_equal. induction IH as [|x r Hx _ IHr]; simpl; [reflexivity|]. rewrite Hx, IHr; reflexivity.
+    reflexivity.
 Qed.
 
 (* ---- last character of a string ---- *)
@@ -58,11 +57,12 @@ Lemma close_class_digit : forall n, close_class (ascii_of_N (48 + n mod 10)) = 2
 Proof.
   intro n. unfold close_class.
   assert (Hlt : (n mod 10 < 10)%N) by (apply N.mod_lt; discriminate).
-  assert (Hemb : N_of_ascii (ascii_of_N (48 + n mod 10)) = (48 + n mod 10)%N) by (apply N_ascii_embedding; lia).
-  destruct (Ascii.eqb (ascii_of_N (48 + n mod 10)) ")") eqn:E1.
-  - apply Ascii.eqb_eq in E1. rewrite E1 in Hemb. simpl in Hemb. lia.
-  - destruct (Ascii.eqb (ascii_of_N (48 + n mod 10)) "]") eqn:E2; [|reflexivity].
-    apply Ascii.eqb_eq in E2. rewrite E2 in Hemb. simpl in Hemb. lia.
+  remember (n mod 10)%N as r eqn:Hr. clear Hr.
+  assert (Hemb : N_of_ascii (ascii_of_N (48 + r)) = (48 + r)%N) by (apply N_ascii_embedding; lia).
+  destruct (Ascii.eqb (ascii_of_N (48 + r)) ")") eqn:E1.
+  - apply Ascii.eqb_eq in E1. rewrite E1 in Hemb. change (N_of_ascii ")") with 41%N in Hemb. lia.
+  - destruct (Ascii.eqb (ascii_of_N (48 + r)) "]") eqn:E2; [|reflexivity].
+    apply Ascii.eqb_eq in E2. rewrite E2 in Hemb. change (N_of_ascii "]") with 93%N in Hemb. lia.
 Qed.
 
 (* the class of a spec's string: tuples end in ")", proper arrays in "]" *)
@@ -75,12 +75,12 @@ Definition sck (t : ty) : N :=
 
 Theorem sclass_py_str : forall t, sclass (py_str t) = sck t.
 Proof.
-  intro t. unfold sclass. destruct t as [| | n | | | e n | e | nm ts | n | | k | k]; simpl py_str; simpl sck;
+  intro t. unfold sclass. destruct t as [| | n | | | e n | e | nm ts | n | | k | k]; cbn [py_str sck];
     try reflexivity.
   - (* uint *) rewrite slast_app, N_to_dec_last. apply close_class_digit.
   - (* T[n] *) rewrite !slast_app. reflexivity.
   - (* T[] *) rewrite slast_app. reflexivity.
-  - (* tuple *) simpl slast. rewrite slast_app. reflexivity.
+  - (* tuple *) rewrite !slast_app. reflexivity.
   - (* byte[n] *) rewrite !slast_app. reflexivity.
   - destruct k; reflexivity.
   - destruct k; reflexivity.
@@ -123,8 +123,8 @@ Proof.
     revert tbs H. induction IH as [|x r Hx _ IHr]; intros [|y r2] H; try discriminate; try reflexivity.
     apply andb_true_iff in H as [Ha Hb]. simpl. rewrite (Hx _ Ha), (IHr _ Hb). reflexivity.
   - destruct b as [| | | | | eb m | | | m | | |]; simpl in H; try discriminate.
-    + apply andb_true_iff in H as [H1 H2]. apply py_eq_flat_byte in H1. apply N.eqb_eq in H2. subst. reflexivity.
     + apply N.eqb_eq in H; subst; reflexivity.
+    + apply andb_true_iff in H as [H1 H2]. apply py_eq_flat_byte in H1. apply N.eqb_eq in H2. subst. reflexivity.
     + apply N.eqb_eq in H; subst; reflexivity.
   - destruct b; simpl in H; try discriminate; reflexivity.
 Qed.
